@@ -9,6 +9,7 @@ mod common;
 mod g_escape;
 mod g_hashable;
 mod g_quote;
+mod g_take;
 mod g_token;
 
 use std::path::Path;
@@ -28,6 +29,7 @@ fn main() {
             "escape" => g_escape::generate(repo),
             "quote" => g_quote::generate(repo),
             "hashable" => g_hashable::generate(repo),
+            "take" => g_take::generate(repo),
             _ => Err(format!("unknown group {g}")),
         };
         match r {
